@@ -22,7 +22,10 @@ Shapes that are expanded (the call is the whole value of the statement):
 
 Parameters are bound by assignments ``param = arg`` in evaluation order (omitted when the argument is
 a name spelled like the parameter); helper locals that collide with names of the caller get a
-``__iK`` suffix.  Not expanded (left as calls): generators, async functions, decorated functions
+``__iK`` suffix.  ``with helper(a) [as v]: body`` with a generator-based context manager of the repository (single yield statement):
+the generator's body with the yield replaced by the with-body.
+
+Not expanded (left as calls): other generators, async functions, decorated functions
 (other than staticmethod/classmethod), recursion, calls with ``*args``/``**kw`` at the call site,
 helpers above the size bound.  Statement nodes copied from a helper carry ``_xv_from =
 (module.rel, qualname)`` and keep their own line numbers, so reports still point at real source.
@@ -422,8 +425,91 @@ class Flattener:
             for c in getattr(s, "cases", []) or []:
                 c.body = self._stmts(c.body, mod, cls, used, depth, stack, local_names)
             rep = self._expand(s, mod, cls, used, depth, stack, local_names)
+            if rep is None and isinstance(s, ast.With):
+                rep = self._expand_cm(s, mod, cls, used, depth, stack, local_names)
             out.extend(rep if rep is not None else [s])
         return out
+
+    def _expand_cm(self, s, mod, cls, used, depth, stack, local_names):
+        """`with helper(args) [as v]: body` where helper is a generator-based context manager of the repository
+        with a single `yield` statement: the generator's body with the yield replaced by the with-body.  An
+        exception in the body is thrown at the yield point, so try/finally and handlers around the yield keep
+        their meaning."""
+        if depth <= 0 or len(s.items) != 1 or not isinstance(s.items[0].context_expr, ast.Call):
+            return None
+        call = s.items[0].context_expr
+        res = self.resolve(mod, cls, call, local_names)
+        if res is None:
+            return None
+        cmod, callee, recv, kind = res
+        if not isinstance(callee, ast.FunctionDef) or any(callee is x for x in stack):
+            return None
+        decos = {ast.unparse(d) for d in callee.decorator_list}
+        if not (decos & {"contextlib.contextmanager", "contextmanager"}) or decos - {"contextlib.contextmanager", "contextmanager", "staticmethod"}:
+            return None
+        ys = [n for n in walk_local(callee) if isinstance(n, (ast.Yield, ast.YieldFrom))]
+        if len(ys) != 1 or not isinstance(ys[0], ast.Yield) or any(isinstance(n, ast.Return) for n in walk_local(callee)) or _count_stmts(callee) > MAX_STMTS:
+            return None
+        binds = self._bind(callee, call, recv, kind)
+        if binds is None:
+            return None
+        self.k += 1
+        k = self.k
+        body = clone([x for x in callee.body])
+        if body and isinstance(body[0], ast.Expr) and isinstance(body[0].value, ast.Constant) and isinstance(body[0].value.value, str):
+            body = body[1:]
+        locs = _local_names(callee)
+        same = {p for p, e in binds if isinstance(e, ast.Name) and e.id == p}
+        mapping = {n: f"{n}__i{k}" for n in locs if n in used and n not in same}
+        if mapping:
+            ren = _Rename(mapping)
+            body = [ren.visit(x) for x in body]
+        pre = []
+        for p, e in binds:
+            tgt = mapping.get(p, p)
+            if isinstance(e, ast.Name) and e.id == tgt:
+                continue
+            b_ = ast.copy_location(ast.Assign(targets=[ast.Name(id=tgt, ctx=ast.Store())], value=e, type_comment=None), s)
+            b_._xv_bind = True
+            pre.append(b_)
+        used |= {mapping.get(n, n) for n in locs}
+        qual = qual_of(callee) or callee.name
+        self.expanded.append((getattr(s, "lineno", 0), f"{cmod.rel}:{qual}"))
+        wbody = list(s.body)
+        state = {"done": False}
+
+        def put(stmts):
+            out_ = []
+            for x in stmts:
+                if isinstance(x, ast.Expr) and isinstance(x.value, ast.Yield) and not state["done"]:
+                    state["done"] = True
+                    if s.items[0].optional_vars is not None:
+                        val = x.value.value if x.value.value is not None else ast.Constant(value=None)
+                        out_.append(ast.copy_location(ast.Assign(targets=[s.items[0].optional_vars], value=val, type_comment=None), s))
+                    out_ += wbody
+                    continue
+                if isinstance(x, FuncTypes + (ast.ClassDef,)):
+                    out_.append(x)
+                    continue
+                for field in ("body", "orelse", "finalbody"):
+                    v = getattr(x, field, None)
+                    if isinstance(v, list) and v and isinstance(v[0], ast.stmt):
+                        setattr(x, field, put(v))
+                for h in getattr(x, "handlers", []) or []:
+                    h.body = put(h.body)
+                out_.append(x)
+            return out_
+
+        body = put(body)
+        if not state["done"]:
+            return None  # the yield is not a statement of its own (value used): unknown shape
+        marker = ast.copy_location(ast.Expr(value=clone(call)), s)
+        marker._xv_call_marker = True
+        for x in body:
+            for y in ast.walk(x):
+                if isinstance(y, ast.stmt) and not hasattr(y, "_xv_from") and not any(y is w for wb in wbody for w in ast.walk(wb)):
+                    y._xv_from = (cmod.rel, qual)
+        return [marker] + pre + body
 
     def flatten(self, fn):
         """A new FunctionDef (parents set, module/qualname links kept) with helpers expanded."""
